@@ -2,7 +2,7 @@
 # Replay of a solver counterexample against the unmodified code (no shims).
 # property=C17 kernel=noise label=k1:roundtrip_field:runs
 import sys
-sys.path[:0] = ["/repo/pulser-core", "/repo/pulser-simulation", "/verif"]
+sys.path[:0] = ['/repo' + "/pulser-core", '/repo' + "/pulser-simulation", "/verif"]
 from symx.replay import replay
 sys.exit(replay(check='checks.c17', kernel='noise', shape={'params': ['dephasing_rate'], 'runs': True},
                 assignment={'dephasing_rate': '1/2'}, label='k1:roundtrip_field:runs'))
